@@ -46,6 +46,7 @@ type State struct {
 	ac     string // allocation counter
 	defers []deferEntry
 	held   map[string]string // lock ghost: key -> Bool term
+	unpub  map[string]bool   // refs of structs allocated on this path whose pointer has not been handed to anything yet
 	mapVer string            // version of all map contents (bumped by map updates and unknown calls)
 	regs   map[ssa.Value]Val // SSA registers defined on the way to this state
 }
@@ -67,6 +68,10 @@ func (s *State) clone() *State {
 	n.held = make(map[string]string, len(s.held))
 	for k, v := range s.held {
 		n.held[k] = v
+	}
+	n.unpub = make(map[string]bool, len(s.unpub))
+	for k := range s.unpub {
+		n.unpub[k] = true
 	}
 	n.defers = append([]deferEntry(nil), s.defers...)
 	n.regs = make(map[ssa.Value]Val, len(s.regs)+8)
@@ -541,7 +546,7 @@ func (g *Gen) summariseLoops() {
 func (g *Gen) execAll() {
 	fn := g.fn
 	g.emit("; function " + fn.String())
-	st := &State{pc: "true", cells: map[*ssa.Alloc]Val{}, heap: map[string]string{}, epoch: "0", ghosts: map[string]Val{}, held: map[string]string{}, regs: map[ssa.Value]Val{}}
+	st := &State{pc: "true", cells: map[*ssa.Alloc]Val{}, heap: map[string]string{}, epoch: "0", ghosts: map[string]Val{}, held: map[string]string{}, unpub: map[string]bool{}, regs: map[ssa.Value]Val{}}
 	g.regs = st.regs
 	st.ac = g.fresh("ac", "Int")
 	g.emit("(assert (< 0 " + st.ac + "))")
@@ -947,6 +952,19 @@ func (g *Gen) join(b *ssa.BasicBlock, ins []edge) *State {
 		res.ghosts[name] = g.mergeGhost(name, vals, conds)
 	}
 	// held
+	res.unpub = map[string]bool{}
+	for k := range ins[0].st.unpub {
+		all := true
+		for _, e := range ins[1:] {
+			if !e.st.unpub[k] {
+				all = false
+				break
+			}
+		}
+		if all {
+			res.unpub[k] = true
+		}
+	}
 	res.held = map[string]string{}
 	for k, t0 := range ins[0].st.held {
 		terms := []string{t0}
@@ -1175,6 +1193,7 @@ func (g *Gen) enterLoop(li *loopInfo, ins []edge) *State {
 		g.checkInvariants(li, e, "invariant-entry")
 	}
 	base := g.join(li.head, ins)
+	base.unpub = map[string]bool{} // the body may hand any pointer on: nothing stays private across a cut
 	return g.havocLoop(li, base)
 }
 
